@@ -316,7 +316,7 @@ class Gaussian(Distribution):
                 return model.gradient(self.prec * dev, *args, **kwargs)
             return model.gradient(self.prec @ dev, *args, **kwargs)
         else:
-            warnings.warn('Gradient not implemented for {}'.format(type(self.mean)))
+            raise NotImplementedError('Gradient not implemented for {}'.format(type(self.mean)))
 
     def _sample(self, N=1, rng=None):
         """ Generate samples of the Gaussian distribution using
